@@ -124,7 +124,7 @@ def work_case(case):
         for t in info.get('tags', ()): res['tags'][t] = res['tags'].get(t, 0) + 1
         if info.get('nontrivial', True): res['nontrivial'] += 1
         h = int(hashlib.sha1((json.dumps(case, sort_keys=True, default=str) + repr(decisions) + str(opts.get('seed', 0))).encode()).hexdigest()[:8], 16)
-        hooks = bool(info.get('hooks') or case.get('hooks'))
+        hooks = bool(getattr(prop, 'NEEDS_HOOKS', False))
         if status == 'violation':
             key = info['key']
             n = seen_keys.get(key, 0); seen_keys[key] = n + 1
@@ -346,7 +346,7 @@ def do_replay(pid, prop, prop_name, path, opts):
     _init_worker(prop_name, opts)
     decisions = [tuple(d) for d in rec['decisions']]
     inputs = dec_inputs(rec['inputs'])
-    verdict, rec2 = confirm(_M, prop, rec['case'], decisions, inputs, 'violation', bool(rec['case'].get('hooks')))
+    verdict, rec2 = confirm(_M, prop, rec['case'], decisions, inputs, 'violation', bool(getattr(prop, 'NEEDS_HOOKS', False)))
     print('replay of %s: %s' % (path, verdict))
     if verdict == 'confirmed':
         print('VIOLATION property=%s replay=%s' % (pid, path))
